@@ -314,9 +314,9 @@ func main() {
 			os.Exit(0)
 		}()
 	}
-	depth := 2
+	depth := 3
 	if f.Thorough() {
-		depth = 3
+		depth = 4
 	}
 	for ti, mt := range mts {
 		if ti%f.NShards != f.Shard {
@@ -327,12 +327,23 @@ func main() {
 		fds := md.Fields()
 		all := make([][]setter, fds.Len())
 		red := make([][]setter, fds.Len())
+		small := make([][]setter, fds.Len())
+		redMax, smallMax := 6, 3
+		if f.Thorough() {
+			redMax, smallMax = 14, 5
+		}
+		pick := func(l []setter, n int) []setter {
+			if len(l) <= n {
+				return l
+			}
+			// the first half from the front (typical values), the rest from the back (nested / all-set / extremes)
+			out := append([]setter{}, l[:n/2]...)
+			return append(out, l[len(l)-(n-n/2):]...)
+		}
 		for i := 0; i < fds.Len(); i++ {
 			all[i] = fieldSetters(fds.Get(i), depth, false)
-			red[i] = fieldSetters(fds.Get(i), depth-1, true)
-			if len(red[i]) > 4 {
-				red[i] = append(red[i][:3:3], red[i][len(red[i])-1])
-			}
+			red[i] = pick(all[i], redMax)
+			small[i] = pick(all[i], smallMax)
 		}
 		for i := range all {
 			for _, s := range all[i] {
@@ -349,6 +360,26 @@ func main() {
 						a.set(m)
 						b.set(m)
 						check(st, f.Prop, m.Interface(), a.desc+", "+b.desc)
+					}
+				}
+			}
+		}
+		// triples of fields over small domains
+		if n := len(small); n >= 3 {
+			for i := 0; i < n; i++ {
+				for j := i + 1; j < n; j++ {
+					for k := j + 1; k < n; k++ {
+						for _, a := range small[i] {
+							for _, b := range small[j] {
+								for _, c := range small[k] {
+									m := mt.New()
+									a.set(m)
+									b.set(m)
+									c.set(m)
+									check(st, f.Prop, m.Interface(), a.desc+", "+b.desc+", "+c.desc)
+								}
+							}
+						}
 					}
 				}
 			}
